@@ -230,6 +230,11 @@ def isNumericChar (c : Char) : Bool := c.isDigit
 
 /-- `Value::aggressively_to_num` -/
 def aggressivelyToNum (s : String) : Outcome F64 :=
+  -- text that already reads as a number keeps its value
+  match fromString s with
+  | float f => .ok f
+  | int i => .ok (F64.ofInt i)
+  | _ =>
   if s.toList.any (fun c => c.toNat ≥ 128) then .unmodelled "non-ascii in aggressively_to_num" else
   let filtered := s.toList.filter (fun c => isNumericChar c || c == '.')
   match fromString (String.ofList filtered) with
@@ -286,13 +291,42 @@ def binaryOp (op : F64 → F64 → F64) (l r : Value) : Outcome Value :=
 def mkInt (site : String) (i : Int) : Outcome Value :=
   if inI64 i then .ok (int i) else .panic site
 
-def mkDur (site : String) (ns : Int) : Outcome Value :=
-  if inDur ns then .ok (dur ns) else .panic site
+/-- chrono's checked date / duration arithmetic: out of range is `EvalError::OutOfRange` -/
+def mkDur (_site : String) (ns : Int) : Outcome Value :=
+  if inDur ns then .ok (dur ns) else .err "OutOfRange"
 
-def mkDate (site : String) (ns : Int) : Outcome Value :=
-  if inDate ns then .ok (date ns) else .panic site
+def mkDate (_site : String) (ns : Int) : Outcome Value :=
+  if inDate ns then .ok (date ns) else .err "OutOfRange"
 
-/-- Rust `i as i32` (wrapping truncation) -/
+def inI32 (i : Int) : Bool := -2147483648 ≤ i && i ≤ 2147483647
+
+/-- `TimeDelta::checked_mul(i32)`: fails when the seconds leave the open i64 range; between the
+documented maximum (i64::MAX ms) and that bound chrono returns values the model does not carry -/
+def durMul (ns : Int) (k : Int) : Outcome Value :=
+  if !inI32 k then .err "OutOfRange"
+  else
+    let r := ns * k
+    if inDur r then .ok (dur r)
+    else if (r.fdiv 1000000000) ≤ F64.i64Min || (r.fdiv 1000000000) ≥ F64.i64Max then .err "OutOfRange"
+    else .unmodelled "duration beyond chrono's documented maximum"
+
+/-- `TimeDelta::checked_div(i32)` on the (secs, nanos ≥ 0) representation -/
+def durDiv (ns : Int) (k : Int) : Outcome Value :=
+  if !inI32 k || k = 0 then .err "OutOfRange"
+  else
+    let secs := ns.fdiv 1000000000
+    let nanos := ns.fmod 1000000000
+    let secs' := secs.tdiv k
+    let carry := secs.tmod k
+    let extra := (carry * 1000000000).tdiv k
+    let nanos' := nanos.tdiv k + extra
+    let (s2, n2) :=
+      if nanos' < 0 then (secs' - 1, nanos' + 1000000000)
+      else if nanos' ≥ 1000000000 then (secs' + 1, nanos' - 1000000000)
+      else (secs', nanos')
+    .ok (dur (s2 * 1000000000 + n2))
+
+/-- (kept for reference) Rust `i as i32` (wrapping truncation) -/
 def asI32 (i : Int) : Int :=
   let m := i.emod 4294967296
   if m ≥ 2147483648 then m - 4294967296 else m
@@ -318,16 +352,14 @@ def sub : Value → Value → Outcome Value
   | l, r => binaryOp F64.sub l r
 
 def mul : Value → Value → Outcome Value
-  | dur l, int r => mkDur "data.rs:208 Duration * i32" (l * asI32 r)
-  | int l, dur r => mkDur "data.rs:209 Duration * i32" (r * asI32 l)
+  | dur l, int r => durMul l r
+  | int l, dur r => durMul r l
   | float l, float r => .ok (fromFloat (F64.mul l r))
   | int l, int r => .ok (intOrFloat (l * r) (F64.mul (F64.ofInt l) (F64.ofInt r)))
   | l, r => binaryOp F64.mul l r
 
 def div : Value → Value → Outcome Value
-  | dur l, int r =>
-    if asI32 r = 0 then .panic "data.rs:222 Duration / 0"
-    else mkDur "data.rs:222 Duration / i32" (l.tdiv (asI32 r))
+  | dur l, int r => durDiv l r
   | l, r => binaryOp F64.div l r
 
 end Value
